@@ -467,6 +467,10 @@ class C10(PropBase):
             tot = sum(D(x) for x in owns)
             if not common.dec_fits(tot) or not sum_chain_exact(owns) or not sum_chain_exact(owns + [common.fmt_dec(-tot)]):
                 return None
+            # the equity account may itself be selected: on re-load its own sum is (its row) + (the balancing posting),
+            # which must be exactly representable too (numeric domain of C02; otherwise F17 territory)
+            if tot != 0 and any(r[1] == case["equity_account"] and not sum_chain_exact([r[2], common.fmt_dec(-tot)]) for r in g):
+                return None
         self.remember(case)
         if eq.get("r") != "OK":
             return {"sig": "equity-export-" + str(eq.get("r")).lower(), "what": "equity export of an accepted journal: %s %s" % (eq.get("r"), (eq.get("msg") or "")[:200])}
